@@ -21,6 +21,11 @@ def check(repo: Repo, rep, tier):
     ctx_restore(repo, rep)
     nonoverlap(repo, rep)
     apply_exh(repo, rep)
+    items_kind(repo, rep)
+    changes_fresh(repo, rep)
+    delete_exclusive(repo, rep)
+    no_source(repo, rep)
+    apply_once(repo, rep)
 
 
 SESSION_END = ("_get_changes", "_new_code")
@@ -91,6 +96,13 @@ def definite_init(repo: Repo, rep):
                 if op is None:
                     rep.violation("R-DEFINITE-INIT", m, node, f"UndecidedValue.{mname} reads self.{attr}, which __init__ does not set on every path", construct=f"{cls.name}.{attr}")
                     continue
+                sw = uv.methods.get(op.dunder)
+                if sw is not None:
+                    scfg = cfg_of(sw)
+                    sets = [x for x in scfg.stmts(ast.Assign) if any(isinstance(t, ast.Attribute) and t.attr == attr and isinstance(t.value, ast.Name) and t.value.id == sw.params[0] for t in x.ast.targets)]
+                    if sets and must_reach(scfg, scfg.entry, sets, [scfg.ret], skip_labels=("exc",)):
+                        rep.ok("R-DEFINITE-INIT", m, node, f"{cls.name}.{mname}: self.{attr} set by UndecidedValue.{op.dunder} when it switches the class")
+                        continue
                 # stored on every first-use path of the switching operation?
                 bad = None
                 for v, outs in op_table(repo, op):
@@ -407,3 +419,185 @@ def apply_exh(repo: Repo, rep):
         rep.ok("R-APPLY-EXH", f, f.node, "unknown parent kinds fail loudly", site="src/inline_snapshot/_change.py apply_all:fallthrough")
     else:
         rep.violation("R-APPLY-EXH", f, f.node, "apply_all silently ignores parents of an unknown kind (edits are dropped)", construct="fallthrough")
+
+
+def items_kind(repo: Repo, rep):
+    rep.rule(
+        "R-ITEMS-KIND",
+        "sibling agreement of the adapters' items(value, node): when the node is not of the AST kind the adapter expects (a value referenced by name, a "
+        "call, ...) every implementation returns the elements with node=None; none of them asserts the kind (an assert is an AssertionError at session end "
+        "for every never-compared snapshot of that shape)",
+    )
+    base = repo.cls("Adapter", "_adapter/adapter.py")
+    n = 0
+    for c in repo.all_classes():
+        if c == base or base not in repo.mro(c) or "items" not in c.methods:
+            continue
+        m = c.methods["items"]
+        node_p = m.params[2] if len(m.params) > 2 else None
+        cfg = cfg_of(m)
+        n += 1
+        asserts = [a for a in body_nodes(m.node) if isinstance(a, ast.Assert) and any(isinstance(x, ast.Call) and norm(x.func) == "isinstance" and x.args and norm(x.args[0]) == node_p for x in ast.walk(a.test))]
+        conds = [cn for cn in cfg.conds() if isinstance(cn.ast, ast.Call) and norm(cn.ast.func) == "isinstance" and cn.ast.args and norm(cn.ast.args[0]) == node_p]
+        conds = [cn for cn in conds if not any(cn.ast is x for a in asserts for x in ast.walk(a.test))]
+        if asserts:
+            rep.violation(
+                "R-ITEMS-KIND",
+                m,
+                asserts[0],
+                f"{c.name}.items asserts the AST kind of the node instead of falling back to node=None like its siblings: a never-compared `snapshot(a)` whose argument is such a value written as a name (or any other expression) ends the session with an AssertionError",
+                construct=f"{c.name}.items:assert",
+            )
+        elif conds:
+            rep.ok("R-ITEMS-KIND", m, conds[0].ast, f"{c.name}.items falls back to node=None for an unexpected node kind")
+        else:
+            rep.violation("R-ITEMS-KIND", m, m.node, f"{c.name}.items never tests the AST kind of the node it pairs the elements with", construct=f"{c.name}.items:notest")
+    rep.floor("R-ITEMS-KIND", "items() implementations", n, 3)
+
+
+def no_source(repo: Repo, rep):
+    rep.rule(
+        "R-NO-SOURCE",
+        "changes of a snapshot whose call expression is unknown (exec'd code, no source) have no node; they may be reported but never applied: in apply_all "
+        "every use of a change (routing by its node's parent, change.apply) is dominated by the `change.node is None` false edge",
+    )
+    f = repo.func("_change.py::apply_all")
+    cfg = cfg_of(f)
+    loops = [n for n in cfg.live if n.kind == "for" and isinstance(n.ast.target, ast.Name) and "change" in n.ast.target.id]
+    if not loops:
+        rep.undecided("R-NO-SOURCE", "loop over the changes not found in apply_all")
+        return
+    from ..cfg import edges_dominate
+
+    n_use = 0
+    for lp in loops[:1]:
+        v = lp.ast.target.id
+        guards = []
+        for c in cfg.conds():
+            t = norm(c.ast)
+            if t == f"{v}.node is None":
+                guards.append((c, "F"))
+            elif t == f"{v}.node is not None":
+                guards.append((c, "T"))
+        body = reach(cfg, [b for b, l in lp.succ if l == "iter"], blocked_nodes=[lp])
+        for nd in body:
+            if nd.kind not in ("stmt",):
+                continue
+            uses = [x for x in ast.walk(nd.ast) if isinstance(x, ast.Attribute) and isinstance(x.value, ast.Name) and x.value.id == v and x.attr in ("node", "apply", "file")]
+            if not uses:
+                continue
+            n_use += 1
+            if guards and edges_dominate(cfg, guards, nd):
+                rep.ok("R-NO-SOURCE", f, nd.ast, f"`{short(nd.ast, 40)}` only for changes that have a node")
+            else:
+                rep.violation("R-NO-SOURCE", f, nd.ast, f"apply_all uses `{short(nd.ast, 50)}` for a change whose node may be None (snapshot() without known call expression, e.g. `exec(\"assert 1 == snapshot()\")` + create): AttributeError / `assert False` at session end", construct=norm(nd.ast)[:60])
+    rep.floor("R-NO-SOURCE", "uses of a change in apply_all's routing loop", n_use, 3)
+
+
+def apply_once(repo: Repo, rep):
+    rep.rule(
+        "R-APPLY-ONCE",
+        "apply_all merges all changes of one container into a single edit, so every recorder receives the changes of a file through ONE apply_all call: two "
+        "apply_all calls on the same recorder (approved changes first, the category under review second) produce two independent edits of the same list/dict/call "
+        "that overlap",
+    )
+    cg = callgraph(repo)
+    n = 0
+    for f in repo.pkg_funcs():
+        if f.module.rel.startswith("@"):
+            continue
+        cfg = None
+        calls = []
+        for c in body_nodes(f.node):
+            if isinstance(c, ast.Call) and len(c.args) >= 2 and isinstance(c.args[1], ast.Name):
+                tg = cg.resolve_callee(c, f)
+                if any(getattr(t, "key", "") == "_change.py::apply_all" for t in tg):
+                    calls.append(c)
+        if not calls:
+            continue
+        cfg = cfg_of(f)
+        for c in calls:
+            n += 1
+        seen = set()
+        for c1 in calls:
+            for c2 in calls:
+                if c1 is c2:
+                    n1 = cfg.nodes_containing(c1)
+                    r = c1.args[1].id
+                    defs = [d for d in cfg.live if r in __import__("sa.defuse", fromlist=["node_defs"]).node_defs(d)]
+                    if n1 and n1[0] in reach(cfg, [b for b, _ in n1[0].succ], blocked_nodes=defs):
+                        rep.violation("R-APPLY-ONCE", f, c1, f"{f.qualname} calls `{short(c1, 50)}` repeatedly (in a loop) on one recorder `{r}` that is created outside the loop: the edits of every iteration pile up in it and overlap", construct=f"loop:{norm(c1)}")
+                    continue
+                n1, n2 = cfg.nodes_containing(c1), cfg.nodes_containing(c2)
+                if not n1 or not n2 or c1.args[1].id != c2.args[1].id:
+                    continue
+                r = c1.args[1].id
+                d1 = set(reaching_defs(cfg, n1[0], r))
+                d2 = set(reaching_defs(cfg, n2[0], r))
+                # the second call is reachable from the first without the recorder being rebound
+                defs = [d for d in cfg.live if r in __import__("sa.defuse", fromlist=["node_defs"]).node_defs(d)]
+                if (d1 & d2) and n2[0] in reach(cfg, [b for b, _ in n1[0].succ], blocked_nodes=defs):
+                    rep.violation(
+                        "R-APPLY-ONCE",
+                        f,
+                        c2,
+                        f"{f.qualname} calls apply_all twice on the same recorder `{r}` (`{short(c1, 40)}` and `{short(c2, 40)}`): e.g. `s = snapshot([1, 2,])` on several lines with `2 in s; 3 in s` and fix,trim ends the session with the overlap AssertionError of _check()",
+                        construct=f"{norm(c1)}+{norm(c2)}",
+                    )
+        
+    rep.floor("R-APPLY-ONCE", "apply_all call sites", n, 3)
+    if not any(o.verdict == "violation" and o.rule == "R-APPLY-ONCE" for o in rep.obl):
+        rep.ok("R-APPLY-ONCE", repo.func("_change.py::apply_all"), None, f"{n} call sites, one per recorder", site="apply_all call sites")
+
+
+def changes_fresh(repo: Repo, rep):
+    rep.rule(
+        "R-CHANGES-FRESH",
+        "in EqValue.__eq__ every `self._changes.append(...)` is dominated by a `self._changes = []` of the same invocation (conditions that repeat are "
+        "correlated): a recording pass that is interrupted by an exception and then repeated must not keep the partial list, else the same edit is recorded twice and overlaps",
+    )
+    from ..defuse import correlated_edges
+
+    for op in dispatch_ops(repo):
+        if op.dunder != "__eq__":
+            continue
+        f = op.func
+        cfg = cfg_of(f)
+        me = f.params[0]
+        apps = [n for n in cfg.live for c in node_calls(n) if isinstance(c.func, ast.Attribute) and c.func.attr in ("append", "extend") and norm(c.func.value) == f"{me}._changes"]
+        resets = [n for n in cfg.stmts(ast.Assign) if any(norm(t) == f"{me}._changes" for t in n.ast.targets)]
+        rep.floor("R-CHANGES-FRESH", "appends to _changes", len(apps), 1)
+        for a in apps:
+            if resets and a not in reach(cfg, [cfg.entry], blocked_nodes=resets, blocked_edges=correlated_edges(cfg, a)):
+                rep.ok("R-CHANGES-FRESH", f, a.ast, "_changes reset before it is filled")
+            else:
+                rep.violation("R-CHANGES-FRESH", f, a.ast, f"{op.label} appends to self._changes without resetting it in the same call: if the first recording pass raises half-way (an element's __eq__ raises) and the snapshot is evaluated again, the changes recorded so far are recorded a second time and the edits overlap at session end", construct="append-without-reset")
+
+
+def delete_exclusive(repo: Repo, rep):
+    rep.rule(
+        "R-DELETE-EXCLUSIVE",
+        "in a _get_changes that can both delete an element (Delete under `element not in new value`) and rewrite an element (Replace) of the same container, "
+        "the Replace is reachable only on the `element in new value` edge: one node never gets a Delete and a Replace (their ranges overlap)",
+    )
+    from .C05 import facts_at
+
+    by_func = {}
+    for s in emission_sites(repo):
+        by_func.setdefault(s.func.key, []).append(s)
+    n = 0
+    for k, ss in by_func.items():
+        dels = [s for s in ss if s.kind == "Delete" and s.func.name == "_get_changes"]
+        reps = [s for s in ss if s.kind == "Replace"]
+        for d in dels:
+            df = facts_at(d.cfg, d.node)
+            for r in reps:
+                if norm(d.args.get("node")) != norm(r.args.get("node")):
+                    continue
+                n += 1
+                rf = facts_at(r.cfg, r.node)
+                if "NOT_IN_NEW" in df and "IN_NEW" in rf:
+                    rep.ok("R-DELETE-EXCLUSIVE", r.func, r.call, f"Replace of `{norm(r.args.get('node'))}` only for elements that are kept")
+                else:
+                    rep.violation("R-DELETE-EXCLUSIVE", r.func, r.call, f"{r.func.qualname} can emit a Delete and a Replace for the same `{norm(r.args.get('node'))}` (the Replace is not restricted to elements that are kept): with trim and update approved the two edits overlap and the session ends with an AssertionError", construct="delete+replace")
+    rep.floor("R-DELETE-EXCLUSIVE", "Delete/Replace pairs on one node", n, 1)
